@@ -775,6 +775,73 @@ def canonical_package_forms(trees) -> int:
 
                 fn.body = [R().visit(s) for s in fn.body if id(s) not in drop] or [ast.copy_location(ast.Pass(), fn.body[0])]
                 count += len(alias)
-        if count:
-            ast.fix_missing_locations(tree)
+    # 3. `self.A = self.P.B` in a constructor, with A, P and B all constructor-only and A stored exactly once in the package:
+    #    in the other methods of that class and of its subclasses `self.P.B` is read as `self.A` (same object: neither
+    #    the holder P nor its attribute B nor the alias A can be re-bound after construction)
+    n_store = {}
+    for tree in trees.values():
+        for x in ast.walk(tree):
+            if isinstance(x, ast.Attribute) and isinstance(x.ctx, ast.Store):
+                n_store[x.attr] = n_store.get(x.attr, 0) + 1
+    class_nodes = {c.name: c for tree in trees.values() for c in ast.walk(tree) if isinstance(c, ast.ClassDef)}
+    aliases = {}
+
+    def _related(cname):
+        out, todo = set(), [cname]
+        while todo:
+            x = todo.pop()
+            if x in out or x not in class_nodes:
+                continue
+            out.add(x)
+            todo += [b.id for b in class_nodes[x].bases if isinstance(b, ast.Name)]
+            todo += [n for n, c in class_nodes.items() if any(isinstance(b, ast.Name) and b.id == x for b in c.bases)]
+        return out
+
+    def _family_stores(cname, A):
+        return sum(1 for r in _related(cname) for x in ast.walk(class_nodes[r]) if isinstance(x, ast.Attribute) and isinstance(x.ctx, ast.Store) and x.attr == A)
+
+    for cname, c in class_nodes.items():
+        for fn in c.body:
+            if isinstance(fn, ast.FunctionDef) and fn.name == "__init__":
+                for st in fn.body:
+                    if isinstance(st, ast.Assign) and len(st.targets) == 1 and isinstance(st.targets[0], ast.Attribute) and isinstance(st.targets[0].value, ast.Name) and st.targets[0].value.id == "self" \
+                            and isinstance(st.value, ast.Attribute) and isinstance(st.value.value, ast.Attribute) and isinstance(st.value.value.value, ast.Name) and st.value.value.value.id == "self":
+                        A, P, B = st.targets[0].attr, st.value.value.attr, st.value.attr
+                        if A in attrs and P in attrs and B in attrs and A != P and _family_stores(cname, A) == 1:
+                            aliases.setdefault(cname, {})[(P, B)] = A
+
+    def family(cname):
+        out, todo = set(), [cname]
+        while todo:
+            x = todo.pop()
+            if x in out:
+                continue
+            out.add(x)
+            todo += [n for n, c in class_nodes.items() if any(isinstance(b, ast.Name) and b.id == x for b in c.bases)]
+        return out
+
+    for cname, table in aliases.items():
+        for member in family(cname):
+            c = class_nodes[member]
+            for fn in c.body:
+                if not isinstance(fn, ast.FunctionDef) or fn.name == "__init__" or not fn.args.args or fn.args.args[0].arg != "self":
+                    continue
+                if any(isinstance(x, ast.Name) and x.id == "self" and isinstance(x.ctx, (ast.Store, ast.Del)) for x in ast.walk(fn)):
+                    continue
+
+                class A3(ast.NodeTransformer):
+                    n = 0
+
+                    def visit_Attribute(self, node):
+                        self.generic_visit(node)
+                        if isinstance(node.ctx, ast.Load) and isinstance(node.value, ast.Attribute) and isinstance(node.value.value, ast.Name) and node.value.value.id == "self" \
+                                and (node.value.attr, node.attr) in table:
+                            A3.n += 1
+                            return ast.copy_location(ast.Attribute(value=node.value.value, attr=table[(node.value.attr, node.attr)], ctx=ast.Load()), node)
+                        return node
+
+                fn.body = [A3().visit(s_) for s_ in fn.body]
+                count += A3.n
+    for tree in trees.values():
+        ast.fix_missing_locations(tree)
     return count
